@@ -102,6 +102,9 @@ def generate(seed, tier):
     rng = core.stream(seed, "gen")
     swarm = core.stream(seed, "swarm")
     config = list(swarm.choice(CONFIGS))
+    if swarm.random() < 0.03:
+        # other spellings and other modes of the csv module: whatever the loader accepts has to round-trip
+        config[3] = swarm.choice(["none", "None", "nonnumeric", "notnull", "strings", "ALL", "Minimal", "minimum"])
     table = draw_table(rng, config)
     if swarm.random() < 0.004:
         # a physical line longer than any buffer although every cell is of modest size (well below the 131072
